@@ -69,13 +69,13 @@ func blockedOnSync(state string) bool {
 // deadlockVerdict is the structural deadlock rule: every goroutine that is inside a pogreb
 // function is blocked on a synchronisation primitive, at least one of them exists, and two
 // dumps a second apart show the same goroutines in the same states.
-func deadlockVerdict() (bool, string) {
+func deadlockVerdict(baseline map[string]bool) (bool, string) {
 	snap := func() (map[string]string, string, bool) {
 		m := map[string]string{}
 		var sb strings.Builder
 		all := true
 		for _, g := range allGoroutines() {
-			if !strings.Contains(g.stack, pogrebFrame) {
+			if !strings.Contains(g.stack, pogrebFrame) || baseline[g.id] {
 				continue
 			}
 			m[g.id] = g.state
@@ -105,11 +105,11 @@ func deadlockVerdict() (bool, string) {
 }
 
 // leakedGoroutines returns the stacks of goroutines that still execute pogreb code.
-func leakedGoroutines() string {
+func leakedGoroutines(baseline map[string]bool) string {
 	for i := 0; i < 200; i++ {
 		var left []string
 		for _, g := range allGoroutines() {
-			if strings.Contains(g.stack, pogrebFrame) {
+			if strings.Contains(g.stack, pogrebFrame) && !baseline[g.id] {
 				left = append(left, g.stack)
 			}
 		}
@@ -162,7 +162,20 @@ func finalAdmissible(ops []cop, key string) map[string]bool {
 	return out
 }
 
+// pogrebGoroutines returns the ids of the goroutines that currently execute pogreb code
+// (left over from an earlier case that ended in a deadlock: they are not this case's).
+func pogrebGoroutines() map[string]bool {
+	m := map[string]bool{}
+	for _, g := range allGoroutines() {
+		if strings.Contains(g.stack, pogrebFrame) {
+			m[g.id] = true
+		}
+	}
+	return m
+}
+
 func propC10(ch core.Chooser, st *core.Stats) error {
+	baseline := pogrebGoroutines()
 	seed := uint32(ch.Int("hashseed", 0, 1<<30))
 	pinSeed(seed)
 	uni := keys.Build(seed, keys.Spec{Identical: 1, LowBits16: 40, LowBits2: 10, Plain: 30, Variant: uint32(ch.Int("univariant", 0, 3))})
@@ -327,7 +340,7 @@ func propC10(ch core.Chooser, st *core.Stats) error {
 	select {
 	case <-fin:
 	case <-time.After(30 * time.Second):
-		if dead, dump := deadlockVerdict(); dead {
+		if dead, dump := deadlockVerdict(baseline); dead {
 			return fmt.Errorf("deadlock: 30 s after the start every goroutine inside pogreb is blocked on a synchronisation primitive and none makes progress:\n%s", dump)
 		}
 		select {
@@ -365,7 +378,7 @@ func propC10(ch core.Chooser, st *core.Stats) error {
 		return fmt.Errorf("Close failed: %v", closeErr)
 	}
 	// no goroutine of the database survives Close
-	if left := leakedGoroutines(); left != "" {
+	if left := leakedGoroutines(baseline); left != "" {
 		return fmt.Errorf("goroutines still execute pogreb code after Close returned and all callers have returned:\n%s", left)
 	}
 	// operations that returned without error and were entirely before Close must be linearizable
